@@ -250,6 +250,17 @@ theorem padding_spec (n : Nat) : (n + padding n) % 2880 = 0 ∧ padding n < 2880
 theorem nuniq_row_roundtrip (d i : Nat) (hi : i < 12 * 4 ^ d) : fromUniqHpx (uniqHpx d i) = (d, i) :=
   fromUniqHpx_uniqHpx d i hi
 
+/-- NUNIQ column, whole file: decoding the codes of any list of in-domain cells gives the cells back
+    (the reader then only re-sorts them in flat order; which cells they are is decided here). -/
+theorem nuniq_column_roundtrip (cells : List Cell) (h : ∀ c ∈ cells, c.2 < 12 * 4 ^ c.1) :
+    (cells.map fun c => uniqHpx c.1 c.2).map fromUniqHpx = cells := by
+  induction cells with
+  | nil => rfl
+  | cons c t ih =>
+    simp only [List.map_cons]
+    rw [ih (fun x hx => h x (List.mem_cons_of_mem _ hx)),
+      fromUniqHpx_uniqHpx c.1 c.2 (h c List.mem_cons_self)]
+
 /-! Non-vacuity: a two-depth MOC with an unoccupied deepest level. -/
 example : encodeToks 3 [⟨1, 2, 3⟩, ⟨2, 0, 5⟩] = [.depth 1, .cell 2, .depth 2, .range 0 5, .depth 3] := by decide
 
